@@ -195,3 +195,26 @@ package search
 //@ func (*pv).setNull view pvframe
 //@   trusted frame only (writes the PV buffer; proved in the main contract)
 //@   modifies pv.depth
+//@
+//@ # ---- the move returned by the iterative deepening and its ponder move
+//@ define moveOK(mv, pd) = implies(mv != 0, accS(gbs, uint16(mv))) && implies(pd != 0, accS(mkS(gbs, uint16(mv)), uint16(pd)))
+//@ func (*Search).iterativeDeepen view pv
+//@   props C07
+//@   views pv search
+//@   allow-extern fmt. time. os. strings. io.
+//@   timeout 300
+//@   requires searchInv(s)
+//@   ensures [move]   implies(result1 != 0, accS(gbs, uint16(result1)))
+//@   ensures [ponder] implies(result2 != 0, accS(mkS(gbs, uint16(result1)), uint16(result2)))
+//@   ensures [board]  gbs == old(gbs)
+//@   # what is reported is what would be returned: the first (and second) move of the reported variation
+//@   at-call Fprintf@2 requires [reported] implies(s.pv.depth[0] >= 1, move == s.pv.moves[0]) && implies(s.pv.depth[0] >= 2, ponder == s.pv.moves[1]) && implies(s.pv.depth[0] == 1, ponder == 0)
+//@   use lineCons(gbs, arr(s.pv.moves), 0, int(s.pv.depth[0])) at call active@1
+//@   use lineCons(mkS(gbs, uint16(s.pv.moves[0])), arr(s.pv.moves), 1, int(s.pv.depth[0]) - 1) at call active@1
+//@   modifies b.*, gbs, s.aborted, s.hstack.*, s.pv.*, s.ms.*, s.tt.data.*, s.ranker.history.*, s.ranker.captHist.*, s.ranker.continuations[0].*, s.ranker.continuations[1].*, opts.Counters.*, opts.PonderHit
+//@   loop 1: invariant gbs == old(gbs) && s.hstack.sp == old(s.hstack.sp) && len(s.ms.frames) == old(len(s.ms.frames)) && moveOK(move, ponder)
+//@   loop 1: modifies b.*, gbs, s.aborted, s.hstack.*, s.pv.*, s.ms.*, s.tt.data.*, s.ranker.history.*, s.ranker.captHist.*, s.ranker.continuations[0].*, s.ranker.continuations[1].*, opts.Counters.*, opts.PonderHit, move, ponder, score
+//@   loop 2: invariant gbs == old(gbs) && s.hstack.sp == old(s.hstack.sp) && len(s.ms.frames) == old(len(s.ms.frames)) && moveOK(move, ponder) && implies(awOk, rowOK(s, 0) && rowLen(s, 0))
+//@   loop 2: modifies b.*, gbs, s.aborted, s.hstack.*, s.pv.*, s.ms.*, s.tt.data.*, s.ranker.history.*, s.ranker.captHist.*, s.ranker.continuations[0].*, s.ranker.continuations[1].*, opts.Counters.*, opts.PonderHit, move, ponder, score
+//@   loop 3: invariant gbs == old(gbs) && s.hstack.sp == old(s.hstack.sp) && len(s.ms.frames) == old(len(s.ms.frames)) + 1 && moveOK(move, ponder) && ponder == 0
+//@   loop 3: modifies b.*, gbs, move
